@@ -267,5 +267,64 @@ def cpu_paths(repo):
     out += "/-- the straight-line parts of `SHA256_Transform_shani` (state load / shuffle / unpack, block loads, final add / unpack /\n"
     out += "    shuffle / store) have the shape `Model.CpuPaths.transformShani` follows -/\n"
     out += "def shaniShapeRecognised : Bool := %s\n" % ("true" if ok else "false")
+
+    # ---------------------------------------------------------------- crypto_aes_aesni.c
+    s4 = strip_c_comments(read(repo, "crypto/crypto_aes_aesni.c"))
+    out += "\n/-! `crypto_aes_aesni.c` -/\n"
+
+    def mk(name, back):
+        t = re.sub(r"\s+", " ", _macro(s4, name))
+        mm = re.search(r"__m128i _s = rkeys\[i - (\d)\]; __m128i _t = rkeys\[i - (\d)\]; "
+                       r"_s = _mm_xor_si128\(_s, _mm_slli_si128\(_s, (\d+)\)\); _s = _mm_xor_si128\(_s, _mm_slli_si128\(_s, (\d+)\)\); "
+                       r"_t = _mm_aeskeygenassist_si128\(_t, rcon\); _t = _mm_shuffle_epi32\(_t, (\w+)\); rkeys\[i\] = _mm_xor_si128\(_s, _t\);", t)
+        if not mm:
+            msgs.append(name + " macro changed: " + t)
+            return [0, 0, 0, 0], "0"
+        return [int(mm.group(k)) for k in (1, 2, 3, 4)], mm.group(5)
+    sh128, shuf128 = mk("MKRKEY128", 1)
+    sh256, shuf256 = mk("MKRKEY256", 2)
+    out += "/-- `MKRKEY128`: `_s = rkeys[i - a]`, `_t = rkeys[i - b]`, the two `slli_si128` byte counts -/\n"
+    out += "def aesniMkrkey128 : List Nat := %s\n" % _nats(sh128)
+    try:
+        out += "def aesniShuffle128 : Nat := %d\n" % int(shuf128, 0)
+    except ValueError:
+        msgs.append("MKRKEY128 shuffle is not a literal")
+        out += "def aesniShuffle128 : Nat := 0\n"
+    out += "def aesniMkrkey256 : List Nat := %s\n" % _nats(sh256)
+    if shuf256 != "shuffle":
+        msgs.append("MKRKEY256 shuffle is not the macro parameter")
+    k128 = re.findall(r"MKRKEY128\(rkeys, (\d+), (0x[0-9a-fA-F]+)\);", s4)
+    if [int(i) for i, _ in k128] != list(range(1, 11)):
+        msgs.append("crypto_aes_key_expand_128_aesni: MKRKEY128 sequence changed")
+    out += "def aesniRcon128 : List UInt8 := [%s]\n" % ", ".join(r for _, r in k128)
+    k256 = re.findall(r"MKRKEY256\(rkeys, (\d+), (0x[0-9a-fA-F]+), (0x[0-9a-fA-F]+)\);", s4)
+    if [int(i) for i, _, _ in k256] != list(range(2, 15)):
+        msgs.append("crypto_aes_key_expand_256_aesni: MKRKEY256 sequence changed")
+    out += "def aesniShufRcon256 : List (Nat × UInt8) := [%s]\n" % ", ".join("(%s, %s)" % (a, b) for _, a, b in k256)
+    b128 = re.sub(r"\s+", " ", _fn_body(s4, "crypto_aes_key_expand_128_aesni"))
+    b256 = re.sub(r"\s+", " ", _fn_body(s4, "crypto_aes_key_expand_256_aesni"))
+    ok = "rkeys[0] = _mm_loadu_si128((const __m128i *)&key_unexpanded[0]);" in b128
+    ok = ok and "rkeys[0] = _mm_loadu_si128((const __m128i *)&key_unexpanded[0]); rkeys[1] = _mm_loadu_si128((const __m128i *)&key_unexpanded[16]);" in b256
+    eb = re.sub(r"\s+", " ", _fn_body(s4, "crypto_aes_encrypt_block_aesni_m128i"))
+    m = re.search(r"aes_state = _mm_xor_si128\(aes_state, aes_key\[(\d+)\]\); ((?:aes_state = _mm_aesenc_si128\(aes_state, aes_key\[\d+\]\); )+)"
+                  r"if \(nr > (\d+)\) \{ ((?:aes_state = _mm_aesenc_si128\(aes_state, aes_key\[\d+\]\); )+)\} "
+                  r"aes_state = _mm_aesenclast_si128\(aes_state, aes_key\[nr\]\); return \(aes_state\);", eb)
+    if not m:
+        msgs.append("crypto_aes_encrypt_block_aesni_m128i: body changed")
+    idx = lambda t: [int(x) for x in re.findall(r"aes_key\[(\d+)\]", t)]
+    out += "/-- `crypto_aes_encrypt_block_aesni_m128i`: index of the initial xor, the unconditional `aesenc` keys, the bound in\n"
+    out += "    `if (nr > N)`, the conditional `aesenc` keys; the last round uses `aes_key[nr]` -/\n"
+    out += "def aesniEncXor : Nat := %d\n" % (int(m.group(1)) if m else 99)
+    out += "def aesniEncFirst : List Nat := %s\n" % _nats(idx(m.group(2)) if m else [])
+    out += "def aesniNrSplit : Nat := %d\n" % (int(m.group(3)) if m else 0)
+    out += "def aesniEncSecond : List Nat := %s\n" % _nats(idx(m.group(4)) if m else [])
+    kb = re.sub(r"\s+", " ", _fn_body(s4, "crypto_aes_key_expand_aesni"))
+    m = re.search(r"if \(len == (\d+)\) \{ kexp->nr = (\d+); crypto_aes_key_expand_128_aesni\(key_unexpanded, kexp->rkeys\); \} "
+                  r"else if \(len == (\d+)\) \{ kexp->nr = (\d+); crypto_aes_key_expand_256_aesni\(key_unexpanded, kexp->rkeys\); \} else \{", kb)
+    if not m:
+        msgs.append("crypto_aes_key_expand_aesni: body changed")
+    out += "def aesniKeyLen128 : Nat := %d\ndef aesniNr128 : Nat := %d\n" % ((int(m.group(1)), int(m.group(2))) if m else (0, 0))
+    out += "def aesniKeyLen256 : Nat := %d\ndef aesniNr256 : Nat := %d\n" % ((int(m.group(3)), int(m.group(4))) if m else (0, 0))
+    out += "def aesniLoadsRecognised : Bool := %s\n" % ("true" if ok else "false")
     out += "\nend Percival.Gen.CpuPaths\n"
     return "CpuPaths", out, msgs
